@@ -99,7 +99,6 @@ func C08(j *core.Job) {
 	for _, k := range tkName {
 		rep.Count("term_"+k, 0)
 	}
-	shapes := map[string]struct{}{}
 	for _, b := range j.Batches {
 		cfg := SwarmCfg(prng.Derive(j.Seed, "C08", b, "cfg"), maxSize, b%2 == 0)
 		for i := 0; i < perBatch; i++ {
@@ -115,7 +114,7 @@ func C08(j *core.Job) {
 				rep.Count("discarded_fuel_watchdog", 1)
 				continue
 			}
-			shapes[t.Shape()] = struct{}{}
+			rep.SetAdd("term_shapes", prng.Derive(0, t.Shape()).Seed())
 			countTerm(rep.Counters, t)
 			rep.Count("consumer_steps", len(sc.Threads[0]))
 			if n >= 1 && Effects(v.Expected) >= 2 {
@@ -136,7 +135,6 @@ func C08(j *core.Job) {
 			}
 		}
 	}
-	rep.Extra["distinct_term_shapes"] = len(shapes)
 }
 
 // evalLaw: two terms that the documented laws declare equivalent must have identical
